@@ -253,20 +253,15 @@ mutual
     | [], _ => .err .other                           -- "unsupported operation / attribute / credential type"
     | .mk k' ptr ty :: rest, d =>
       if k' = k then
-        match ptr, ty with
-        | false, .prim .int => readPrim d tag .int
-        | false, .prim .long => readPrim d tag .long
-        | false, .prim .enum => readPrim d tag .enum
-        | false, .prim .bool => readPrim d tag .bool
-        | false, .prim .bytes => readPrim d tag .bytes
-        | false, .prim .text => readPrim d tag .text
-        | false, .prim .time => readPrim d tag .time
-        | false, .prim .interval => .err .other      -- time.Duration is not in the switch and is not a pointer
-        | true, .prim _ => .err .other               -- pointer to a non-struct
-        | true, .struct sd => if sd.descOk then decStruct tag sd d else .err .other
-        | false, .struct _ => .err .other            -- struct by value: not a pointer
-        | _, .dyn _ _ => .err .other
-        | _, .unsupported => .err .other
+        match ty with
+        | .prim p =>
+          -- a pointer to a non-struct is rejected; time.Duration is not in decodeValue's type switch and is not a pointer
+          if ptr = true ∨ p = .interval then .err .other else readPrim d tag p
+        | .struct sd =>
+          -- a struct must come as a pointer
+          if ptr = true then (if sd.descOk then decStruct tag sd d else .err .other) else .err .other
+        | .dyn _ _ => .err .other
+        | .unsupported => .err .other
       else decDyn tag prev k rest d
   /-- `decode(rv, structDesc)` with `structDesc.tag = tag` -/
   def decStruct (tag : Nat) : SD → Dec → Outcome (Val × Nat × Dec)
